@@ -164,10 +164,6 @@ func replayFaults(w *World, r *OblResult, workdir string) *replayOutcome {
 	return ro
 }
 
-func replayFunctional(w *World, r *OblResult, workdir string) *replayOutcome {
-	return &replayOutcome{Outcome: "not-attempted", Note: "functional replay not implemented for this signature"}
-}
-
 // modelTerms: the terms whose values describe a counterexample: parameters (scalars directly,
 // slices by length and their first bytes), initial ghost state.
 func (g *gen) modelTerms() []string {
